@@ -102,11 +102,11 @@ def harness_ninja(harnesses):
     hd = os.path.join(BUILD, "harness")
     os.makedirs(hd, exist_ok=True)
     L = []
-    L.append("rule cxx_sched\n  command = clang++ -std=c++17 %s -march=native %s -MD -MF $out.d -c $in -o $out\n  depfile = $out.d\n  deps = gcc\n"
+    L.append("rule cxx_sched\n  command = clang++ -std=c++17 %s -march=native %s $defs -MD -MF $out.d -c $in -o $out\n  depfile = $out.d\n  deps = gcc\n"
              % (SCHED_FLAGS, _inc("sched")))
-    L.append("rule cxx_fuzz\n  command = clang++ -std=c++17 %s -march=native %s -MD -MF $out.d -c $in -o $out\n  depfile = $out.d\n  deps = gcc\n"
+    L.append("rule cxx_fuzz\n  command = clang++ -std=c++17 %s -march=native %s $defs -MD -MF $out.d -c $in -o $out\n  depfile = $out.d\n  deps = gcc\n"
              % (FUZZ_FLAGS.replace("fuzzer-no-link", "fuzzer"), _inc("fuzz", DIST_INCS)))
-    L.append("rule cxx_native\n  command = g++ -std=c++17 %s -UNDEBUG -march=native %s -MD -MF $out.d -c $in -o $out\n  depfile = $out.d\n  deps = gcc\n"
+    L.append("rule cxx_native\n  command = g++ -std=c++17 %s -UNDEBUG -march=native %s $defs -MD -MF $out.d -c $in -o $out\n  depfile = $out.d\n  deps = gcc\n"
              % (NATIVE_FLAGS, _inc("native", DIST_INCS)))
     L.append("rule cxx_gsched\n  command = g++ -std=c++17 -O2 -g -I%s/engine/gsched -MD -MF $out.d -c $in -o $out\n  depfile = $out.d\n  deps = gcc\n" % VERIF)
     L.append("rule link_sched\n  command = clang++ -g $in %s/libgalois/libgalois_shmem.a -lrapidcheck -lnuma -lpthread -ldl -o $out\n" % variant_dir("sched"))
@@ -120,7 +120,7 @@ def harness_ninja(harnesses):
         objs = []
         for s in h["srcs"]:
             o = "%s.%s.o" % (h["name"], os.path.basename(s).replace(".cpp", ""))
-            L.append("build %s: cxx_%s %s/%s\n" % (o, kind, VERIF, s))
+            L.append("build %s: cxx_%s %s/%s\n  defs = %s\n" % (o, kind, VERIF, s, " ".join(h.get("defs", []))))
             objs.append(o)
         libs = " ".join(h.get("libs", []))
         if kind == "sched":
